@@ -22,7 +22,8 @@ INFO = {
 
 WORDS = ['prog', './a.out', '--help', '-x', 'a b', '', '"', "'", '\\', 'a\\b', 'a"b', "it's", 'x\\', '\\n', 'tab\there', '$HOME', '`id`', ';', '*',
          '-r', '--run', '-g', '--gdb', '-rg', '-Cr', '-l', '-f', 'wl_surface', '--', '-', '--supress', 'é', 'a\nb', '%s', '{0}', "'\"", 'x' * 40,
-         '100%', '%', '%%', '%d%s', 'a%sb', '%(x)s', '{', '}', '{}', '\\\\', '\\n', 'a\rb', '\x1b[0m']
+         '100%', '%', '%%', '%d%s', 'a%sb', '%(x)s', '{', '}', '{}', '\\\\', '\\n', 'a\rb', '\x1b[0m',
+         '\U0001F600', 'x\U00010300y', '\uffff', '\u2028']
 FLAGS = ['-p', '--pipe', '-C', '--no-color', '--color', '--supress', '--verbose']
 VALUED = ['-l', '--load', '-f', '--filter', '-b', '--break']
 MARKERS = ['-r', '--run', '-g', '--gdb', '-Cr', '-Cg', '-rC', '-gC', '-pr', '-Cpg', '-rg', '-gr', '--r', '-run', '--gdbx', '-R', 'r', '-rr', '-gg']
@@ -37,7 +38,7 @@ def gen_argv(rnd):
         elif r < 0.9:
             o = rnd.choice(VALUED)
             if o in ('-l', '--load'):
-                v = rnd.choice(['/tmp/x.log', 'file', 'a b'])
+                v = rnd.choice(['/tmp/x.log', 'file', 'a b', '/opt/\U00010300/lib', 'p\U0001F600.log', 'caf\u00e9/\uffff'])   # also beyond the BMP
             else:
                 v = matchgen.matcher(rnd, 1).strip() if rnd.random() < 0.7 else matchgen.mutate(rnd, matchgen.matcher(rnd, 1)).strip()
                 if rnd.random() < 0.25:
@@ -121,13 +122,13 @@ def eval_python_command(cmd):
             'code = sys.stdin.read()\n'
             'try:\n'
             '    exec(code, {"__name__": "__gdb__"})\n'
-            '    print(json.dumps(["ok", sys.argv]))\n'
+            '    print(ascii(["ok", sys.argv]))\n'           # not JSON: it would merge two lone surrogates back into one character
             'except BaseException as e:\n'
-            '    print(json.dumps(["error", repr(e)]))\n')
+            '    print(ascii(["error", repr(e)]))\n')
     p = subprocess.run([sys.executable, '-c', prog], input=code, capture_output=True, text=True, timeout=60)
-    import json
+    import ast
     try:
-        return json.loads(p.stdout.strip().split('\n')[-1])
+        return ast.literal_eval(p.stdout.strip().split('\n')[-1])
     except Exception:
         return ['error', p.stdout[-200:] + p.stderr[-200:]]
 
@@ -178,7 +179,39 @@ def run(res):
                 if ev != ['ok', ours]:
                     res.disagree('sys.argv re-created inside GDB differs from our words', av, ['ok', ours], ev,
                                  sig={'entry': 'gdb-inner-argv', 'argv': av, 'has_backslash': any('\\' in w for w in ours)}, theorem='C19_gdb_argv_roundtrip')
+    # 3b. the same for words outside the model's ASCII domain (accents, beyond the BMP, line separators): judged on /repo alone —
+    #     the words before the marker must come back verbatim as sys.argv inside GDB, the words after it go to gdb verbatim
+    uni = ['caf\u00e9', '\U0001F600', 'x\U00010300y', '\uffff', '\u2028', '/opt/\U00010300/lib', '\u65e5\u672c', 'a\u0301']
+    n_uni = 0
+    for _ in range(40 if res.tier == 'quick' else 1500):
+        pre = ['main.py']
+        for _k in range(rnd.choice([1, 2, 3])):
+            r0 = rnd.random()
+            if r0 < 0.4:
+                pre += ['--libwayland', rnd.choice(uni)]        # (-l/--load and -p are modes of their own: with -g they would conflict)
+            elif r0 < 0.7:
+                pre += [rnd.choice(['-f', '-b']), '(x="' + rnd.choice(uni) + '")']
+            else:
+                pre.append(rnd.choice(['-C', '--no-color', '--color', '--supress', '--verbose']))
+        fwd = ['prog'] + [rnd.choice(uni + WORDS) for _k in range(rnd.choice([0, 1, 3]))]
+        av = pre + [rnd.choice(['-g', '--gdb'])] + fwd
+        r = impl_parse(av)
+        res.evaluations += 1
+        if r[0] != 'ok' or r[1][0] != 'ok':
+            if r != ['ok', ['bad-matcher']]:
+                res.disagree('a vector with non-ASCII words before -g is not accepted', av, 'accepted', r, sig={'entry': 'gdb-unicode', 'argv': av})
+            continue
+        n_uni += 1
+        gargv = r[1][8]
+        if r[1][6] != pre or r[1][7] != fwd or gargv[:2] != ['gdb', '-ex'] or gargv[3:] != fwd:
+            res.disagree('words are not split / forwarded verbatim', av, [pre, fwd], [r[1][6], r[1][7], gargv[3:]], sig={'entry': 'gdb-unicode-split', 'argv': av})
+            continue
+        ev = eval_python_command(gargv[2])
+        if ev != ['ok', pre]:
+            res.disagree('sys.argv re-created inside GDB differs from our words', av, ['ok', pre], ev,
+                         sig={'entry': 'gdb-inner-argv', 'argv': av, 'non_ascii': True}, theorem='C19_gdb_argv_roundtrip (ASCII); exploration beyond')
     res.extra['gdb_inner_argv_evaluations'] = n_gdb
+    res.extra['gdb_inner_argv_non_ascii'] = n_uni
     res.sample({'argv': argvs[len(CORPUS)], 'model': mres[len(CORPUS)]})
     res.sample({'argv': argvs[len(CORPUS) + 1], 'model': mres[len(CORPUS) + 1]})
     run_mode_argv(res, rnd)
